@@ -314,12 +314,56 @@ class ShardResult:
     realization_sites: dict = dataclasses.field(default_factory=dict)
 
 
-def run_concrete(scenario: Callable, witness: list) -> Outcome | None:
-    """Run the scenario on a concrete witness. None => precondition not met."""
+class HangDetected(BaseException):
+    """The concrete run of a scenario did not finish within the watchdog time (BaseException: must not be swallowed
+    by the `except Exception` clauses of the code under test)."""
+
+
+def _arm_watchdog(seconds: float) -> None:
+    """Wall-clock watchdog for one symbolic path: CrossHair only checks its path timeout when the solver is consulted,
+    so a loop over fully concretised values would never be interrupted.  Raises PathTimeout inside the path."""
+    import signal
+    import threading
+
+    if threading.current_thread() is not threading.main_thread():
+        return
+    if seconds <= 0:
+        signal.setitimer(signal.ITIMER_REAL, 0)
+        return
+
+    def on_alarm(signum, frame):
+        from crosshair.util import PathTimeout
+
+        raise PathTimeout("sx wall-clock watchdog")
+
+    signal.signal(signal.SIGALRM, on_alarm)
+    signal.setitimer(signal.ITIMER_REAL, seconds)
+
+
+def run_concrete(scenario: Callable, witness: list, watchdog_s: float = 0) -> Outcome | None:
+    """Run the scenario on a concrete witness. None => precondition not met.
+    With watchdog_s > 0 a run that does not finish in time yields Outcome(ok=False, tags=('hang',))."""
+    import signal
+    import threading
+
+    use_alarm = watchdog_s > 0 and threading.current_thread() is threading.main_thread()
+    if use_alarm:
+
+        def on_alarm(signum, frame):
+            raise HangDetected()
+
+        old = signal.signal(signal.SIGALRM, on_alarm)
+        signal.setitimer(signal.ITIMER_REAL, watchdog_s)
     try:
         return scenario(ConcreteSym(witness))
     except Precondition:
         return None
+    except HangDetected:
+        return Outcome(ok=False, skeleton=("hang",), tags=("hang",), detail={"hang": f"concrete run did not finish within {watchdog_s} s (call never returns)"})
+    finally:
+        if use_alarm:
+            signal.setitimer(signal.ITIMER_REAL, 0)
+            signal.signal(signal.SIGALRM, old)
 
 
 def explore(
@@ -331,6 +375,7 @@ def explore(
     max_counterexamples: int = 3,
     validate_every: int = 1,
     stop_on_first: bool = True,
+    hang_check_s: float = 10.0,
 ) -> ShardResult:
     from crosshair import core as C
     from crosshair.condition_parser import condition_parser
@@ -376,6 +421,7 @@ def explore(
         res.paths += 1
         with condition_parser(options.analysis_kind), C.Patched(), COMPOSITE_TRACER, NoTracing(), StateSpaceContext(space):
             S = SymbolicSym(space)
+            _arm_watchdog(per_path_timeout + 5.0)
             try:
                 out = None
                 user_exc = None
@@ -455,6 +501,21 @@ def explore(
                 status = VerificationStatus.UNKNOWN
                 k = type(e).__name__ + ":" + str(e)[:80]
                 res.unknown_reasons[k] = res.unknown_reasons.get(k, 0) + 1
+                _arm_watchdog(0)
+                if type(e).__name__ == "PathTimeout" and hang_check_s > 0 and res.paths_failed == 0:
+                    # a path that never ends: does a concrete input on this path hang the real code too?
+                    try:
+                        witness, _m = S.peek()
+                    except BaseException:  # noqa: BLE001
+                        witness = None
+                    if witness is not None:
+                        conc = run_concrete(scenario, witness, watchdog_s=hang_check_s)
+                        if conc is not None and "hang" in conc.tags:
+                            res.paths_failed += 1
+                            res.counterexamples.append({"witness": _jsonable(witness), "tags": ["hang"], "detail": repr(conc.detail)})
+                            status = VerificationStatus.REFUTED
+            finally:
+                _arm_watchdog(0)
             if status == VerificationStatus.UNKNOWN:
                 res.paths_unknown += 1
             _analysis, exhausted = space.bubble_status(CallAnalysis(status))
